@@ -12,7 +12,7 @@ import (
 
 // C14 — UDP associations live as long as promised and are always reclaimed.
 func init() {
-	Register(&Scenario{Name: "c14", Prop: "C14", MaxSteps: 100000, Tick: true, Run: runC14})
+	Register(&Scenario{Name: "c14", LivelockIsViolation: true, Prop: "C14", MaxSteps: 100000, Tick: true, Run: runC14})
 	// The same timed run shape decides C04's "while an association is alive, one
 	// source address": only the association-count oracle applies there.
 	Register(&Scenario{Name: "c04t", Prop: "C04", MaxSteps: 100000, Tick: true, Run: func(rc *RunCtx) {
@@ -288,6 +288,14 @@ func runC14(rc *RunCtx) {
 			}
 			if a == nil {
 				a = &c14assoc{client: c, created: e.at, D: e.at + to, writes: 1, firstDNS: e.send.dns, armed: e.send.dns, why: "timeout"}
+				for _, p := range assocs {
+					if p.client == c && p.fuzzy {
+						// after a don't-care instant the model no longer knows which of the
+						// client's associations exist: everything later of that client is
+						// don't-care too (the end-state checks still apply)
+						a.fuzzy = true
+					}
+				}
 				live[c] = a
 				assocs = append(assocs, a)
 				if n := nthOf[c]; n < len(socksOf[c]) {
@@ -372,6 +380,25 @@ func runC14(rc *RunCtx) {
 			if r.T >= 0 {
 				cur = r.T
 			}
+		}
+	}
+	// End state, whatever happened at the don't-care instants: the system is idle
+	// and every deadline has passed, so every outbound socket is closed, every
+	// reported association was reported removed exactly once, and no association
+	// goroutine is left.
+	for _, sk := range outSocks {
+		if !sk.IsClosed() {
+			rc.Failf("socket-never-closed", "outbound socket %v (created at %v) is still open although the system is idle at %v and every deadline has passed", sk.LocalAddr(), sk.Created, end)
+		}
+	}
+	for i, rec := range m.UDP {
+		if n := rec.count("remove"); n != 1 {
+			rc.Failf("removal-report-count", "association %d (%s): removal reported %d times by the time the system is idle", i, rec.Client, n)
+		}
+	}
+	for _, t := range simrt.Snapshot() {
+		if t.Kind == "repo" && funcOf(t.Created) == "service.(*natmap).Add" {
+			rc.Failf("association-task-leak", "an association's copy goroutine is still alive when the system is idle: %s", describeTasks([]simrt.TaskInfo{t}))
 		}
 	}
 	fuzzyAny := false
